@@ -25,7 +25,7 @@ func init() {
 			"depth 3 over class representatives) with a liveness probe after each step (GET /api/preferenceFunctions lists the 7 methods; a fixed valid decide returns its baseline bytes). " +
 			"State = (alive, fingerprint of package-level state, probe bytes); expected reachable set: one state. Oracle: valid => 200 with result and biases; otherwise 400 with error and the echoed request; " +
 			"a constraint violation is never answered 200; unknown method/bias errors list the available names. states/transitions/traces as counted.",
-		Assume: []string{"HTTP transport below ServeHTTP (net/http connection handling) is not part of the explored system in the quick tier"},
+		Assume:   []string{"HTTP transport below ServeHTTP (net/http connection handling) is not part of the explored system in the quick tier"},
 		Run:      c20Run,
 		Check:    c20Check,
 		Finalize: c20Finalize,
@@ -69,7 +69,9 @@ type c20Req struct {
 
 func malformedBodies() []c20Req {
 	var out []c20Req
-	add := func(name, body string) { out = append(out, c20Req{Name: "malformed/" + name, Body: body, Class: "malformed"}) }
+	add := func(name, body string) {
+		out = append(out, c20Req{Name: "malformed/" + name, Body: body, Class: "malformed"})
+	}
 	add("empty", "")
 	add("null", "null")
 	add("array", "[]")
